@@ -85,7 +85,9 @@ func Go(ctx context.Context, conf ConnConfig, shell Shell) error {
 			VerifyConnection:   vfp,
 		}
 		transport.ForceAttemptHTTP2 = true
-		client.Transport = transport
+		/* Use our own client; http.DefaultClient is shared by the
+		whole process and mustn't be changed. */
+		client = &http.Client{Transport: transport}
 	}
 
 	/* Connect to CRS. */
